@@ -504,8 +504,14 @@ func checkCase(c *Case) string {
 			}
 		}
 		if ex.Resp.Framing == wire.FrChunked && !wire.Bodiless(ex.Req.Method, ex.Resp.Status) {
-			wt := wire.NormLoose(ex.Resp.Trailers, nil)
-			gt := wire.NormLoose(o.Trailers, nil)
+			foldedTr := map[string]bool{}
+			for _, kv := range ex.Resp.Trailers {
+				if strings.Contains(kv.V, "\r\n") {
+					foldedTr[strings.ToLower(kv.K)] = true
+				}
+			}
+			wt := wire.NormLoose(ex.Resp.Trailers, foldedTr)
+			gt := wire.NormLoose(o.Trailers, foldedTr)
 			if strings.Join(wt, "\n") != strings.Join(gt, "\n") {
 				return fmt.Sprintf("%s: trailers %q, want %q", id, gt, wt)
 			}
@@ -531,7 +537,7 @@ func genCase(t *rapid.T) *Case {
 	k := rapid.IntRange(1, 5).Draw(t, "nExchanges")
 	for i := 0; i < k; i++ {
 		ex := &exchange{Req: genReq(t, i), API: rapid.IntRange(0, 1).Draw(t, "api")}
-		ex.Resp = gen.GenResp(t, i, ex.Req.Method, gen.RespOpts{Fold: false, UntilClose: true})
+		ex.Resp = gen.GenResp(t, i, ex.Req.Method, gen.RespOpts{Fold: false, FoldTrailers: true, UntilClose: true})
 		if ex.Resp.BodyLen > 30000 {
 			ex.Resp.Body, ex.Resp.BodyLen = ex.Resp.Body[:30000], 30000
 			for j := range ex.Resp.Lines {
